@@ -13,6 +13,7 @@ import (
 	"sort"
 	"strings"
 	"sync"
+	"sync/atomic"
 	"time"
 
 	"golang.org/x/tools/go/packages"
@@ -30,6 +31,8 @@ type Engine struct {
 	feasTimeoutMs int
 	maxSteps      int
 	maxPaths      int
+	deadline      time.Duration
+	stopped       atomic.Bool
 	workers       int
 	mainSolver    string
 	skipInitPkgs  map[string]bool
@@ -73,6 +76,7 @@ type RunSummary struct {
 	Samples       []json.RawMessage `json:"samples"`
 	SchedPoints   int               `json:"sched_decisions"`
 	Truncated     bool              `json:"truncated"`
+	DeadlineHit   bool              `json:"deadline_hit"`
 	FeasUnknown   int               `json:"feasibility_unknown_kept"`
 	Params        map[string]int    `json:"params"`
 }
@@ -232,6 +236,7 @@ func (e *Engine) explore() *RunSummary {
 	funcs := map[string]bool{}
 	reached := map[string]bool{}
 	stop := false
+	e.stopped.Store(false)
 	t0 := time.Now()
 	var wg sync.WaitGroup
 	for w := 0; w < e.workers; w++ {
@@ -309,8 +314,22 @@ func (e *Engine) explore() *RunSummary {
 					sum.Truncated = true
 					stop = true
 				}
-				if len(sum.Unsupported) > 0 || len(sum.Violations) >= 8 {
+				unknownViol := 0
+				for _, v := range sum.Violations {
+					if v.Known == "" {
+						unknownViol++
+					}
+				}
+				if len(sum.Unsupported) > 0 || unknownViol >= 3 || len(sum.Violations) >= 40 {
 					stop = true
+				}
+				if e.deadline > 0 && time.Since(t0) > e.deadline {
+					sum.Truncated = true
+					sum.DeadlineHit = true
+					stop = true
+				}
+				if stop {
+					e.stopped.Store(true)
 				}
 				mu.Unlock()
 				cond.Broadcast()
@@ -349,8 +368,9 @@ func main() {
 	out := flag.String("out", "", "result JSON file")
 	maxSteps := flag.Int("maxsteps", 2000000, "SSA instruction budget per path")
 	maxPaths := flag.Int("maxpaths", 200000, "path budget")
+	deadlineS := flag.Int("deadline", 900, "wall-clock budget per harness run in seconds (exceeding it makes the run incomplete)")
 	solver := flag.String("solver", "z3", "main incremental solver")
-	feasMs := flag.Int("feas-ms", 20000, "timeout per query on the main solver (ms)")
+	feasMs := flag.Int("feas-ms", 10000, "timeout per query on the main solver (ms)")
 	assertS := flag.Int("assert-s", 60, "timeout per portfolio query (s)")
 	verbose := flag.Bool("v", false, "verbose")
 	prefixS := flag.String("prefix", "", "run a single path with this decision prefix (comma separated)")
@@ -360,6 +380,7 @@ func main() {
 
 	e := &Engine{params: map[string]int{}, portfolio: []string{"cvc5-int", "z3-new", "cvc5"}, assertTimeout: time.Duration(*assertS) * time.Second,
 		feasTimeoutMs: *feasMs, maxSteps: *maxSteps, maxPaths: *maxPaths, workers: *workers, mainSolver: *solver, verbose: *verbose,
+		deadline: time.Duration(*deadlineS) * time.Second,
 		skipInitPkgs: map[string]bool{"crypto/rand": true, "runtime": true, "os": true, "syscall": true, "net": true, "net/http": true,
 			"crypto/tls": true, "github.com/sirupsen/logrus": true, "go.etcd.io/bbolt": true, "reflect": true, "internal/godebug": true,
 			"crypto/internal/fips140": true, "github.com/refraction-networking/utls": true, "github.com/gorilla/websocket": true, "github.com/gorilla/mux": true,
